@@ -101,6 +101,40 @@ def rank_prefixes(prefixes):
     return rank
 
 
+def extract_graph(g, worker, vm):
+    """abstract description of a flagged remove-set graph of `update` (nodes, cleanup edges, produced states, and the
+    verdict of the installed run/clean policies evaluated for the graph's worker before the traversal starts)"""
+    import re
+    nodes = list(g.nodes)
+    idx = {id(n): i for i, n in enumerate(nodes)}
+    out = []
+    for n in nodes:
+        p = n.params
+        sets = []
+        for o in n.objects:
+            if o.key == "nets":
+                continue
+            st = o.object_typed_params(p).get("set_state")
+            if st:
+                sets.append([o.suffix if o.key == "vms" else o.composites[0].suffix, st, o.key])
+
+        def verdict(f):
+            if getattr(f, "__func__", f).__name__ != "<lambda>":
+                return "d"
+            return "T" if f(worker) else "F"
+        cfs = [o.component_form for o in n.objects if o.key == "vms"]
+        # the regex of update's flag_children worker filter, to check the model's reading of it
+        rx = {cf: bool(re.search(r"(?:^|\.)" + cf + r".*" + worker.id + r"(?:$|\.)", p["name"]))
+              for cf in {o.component_form for gg, _, _ in [(g, 0, 0)] for nn in gg.nodes for o in nn.objects if o.key == "vms"}}
+        out.append({"name": p["name"], "setless": n.setless_form, "vms": p.get("vms", "").split(), "cfs": cfs,
+                    "object_root": p.get("object_root", ""), "shared_root": n.is_shared_root(),
+                    "cloned": len(n.cloned_nodes) > 0, "sets": sets, "rx": rx,
+                    "children": [idx[id(c)] for c in n.cleanup_nodes if id(c) in idx],
+                    "parents": [idx[id(c)] for c in n.setup_nodes if id(c) in idx],
+                    "run": verdict(n.should_run), "clean": verdict(n.should_clean)})
+    return {"gid": id(g), "worker": worker.id, "vm": vm, "nodes": out}
+
+
 def cleanup():
     if _env:
         os.chdir("/")
@@ -142,7 +176,7 @@ class Recorder:
     """
     max_events = 4000
 
-    def __init__(self, sched=None, fail=None, module=None, graph_module=None, node_status=None):
+    def __init__(self, sched=None, fail=None, module=None, graph_module=None, node_status=None, spy_update=False):
         self.m = env()
         self.sched = sched or {}
         self.fail = fail
@@ -151,6 +185,8 @@ class Recorder:
         self.exec_count = {}
         self.depth = 0
         self.step_idx = -1
+        self.spy_update = spy_update
+        self.clean_graphs = []          # [(graph object, worker id, call record)] of update's remove-set graphs
         self.node_status = node_status  # optional callable(params, k-th execution of that name) -> status
         self.name_count = {}
 
@@ -265,11 +301,65 @@ class Recorder:
               mock.patch("avocado_i2n.plugins.runner.SpawnerDispatcher", mock.MagicMock()),
               mock.patch.object(m.TestRunner, "run_test_task", run_test_task),
               mock.patch.object(m.TestGraph, "parse_composite_nodes", parse_composite_nodes)]
+        if self.spy_update:
+            ps += self._update_spies()
         # spies on the tool functions (Manu.run resolves them with getattr at call time)
         for name in TOOLS:
             if hasattr(self.mod, name):
                 ps.append(mock.patch.object(self.mod, name, self._spy(name, getattr(self.mod, name))))
         return ps
+
+    # -- spies for `update` (C15) ---------------------------------------------------------
+    def _update_spies(self):
+        rec, m = self, self.m
+        real_pot = m.TestGraph.parse_object_trees
+        real_fi = m.TestGraph.flag_intersection
+        real_fc = m.TestGraph.flag_children
+        real_rw = m.TestRunner.run_workers
+
+        def parse_object_trees(worker=None, restriction="", prefix="", object_restrs=None, params=None, verbose=False,
+                               with_shared_root=True):
+            try:
+                g = real_pot(worker, restriction, prefix, object_restrs, params, verbose, with_shared_root)
+            except Exception as e:
+                rec.ev(k="pot", worker=worker.id if worker else None, restr=restriction, shared=with_shared_root,
+                       exc=type(e).__name__, vm=(params or {}).get("vms"))
+                raise
+            rec.ev(k="pot", worker=worker.id if worker else None, restr=restriction, shared=with_shared_root, exc=None,
+                   gid=id(g), n=len(g.nodes), vm=(params or {}).get("vms"))
+            if not with_shared_root:
+                rec.clean_graphs.append((g, worker, (params or {}).get("vms")))
+            return g
+
+        def flag_intersection(self, graph, flag_type="run", flag=None, skip_object_roots=False, skip_shared_root=False):
+            rec.ev(k="fi", gid=id(self), same=graph is self, other=[n.params["name"] for n in graph.nodes], type=flag_type,
+                   skip_or=skip_object_roots, skip_sr=skip_shared_root)
+            return real_fi(self, graph, flag_type=flag_type, flag=flag, skip_object_roots=skip_object_roots,
+                           skip_shared_root=skip_shared_root)
+
+        def flag_children(self, node_name="", object_name="", worker_name="", flag_type="run", flag=None,
+                          skip_parents=False, skip_children=False):
+            rec.ev(k="fc", gid=id(self), node=node_name, obj=object_name, wname=worker_name, type=flag_type,
+                   skip_p=skip_parents, skip_c=skip_children)
+            try:
+                return real_fc(self, node_name, object_name, worker_name, flag_type=flag_type, flag=flag,
+                               skip_parents=skip_parents, skip_children=skip_children)
+            except AssertionError:
+                for g, w, vm in rec.clean_graphs:
+                    if g is self:
+                        rec.ev(k="rejected-graph", graph=extract_graph(g, w, vm), node=node_name, obj=object_name)
+                raise
+
+        def run_workers(runner, graph, params):
+            if rec.clean_graphs:
+                rec.ev(k="graphs", graphs=[extract_graph(g, w, vm) for g, w, vm in rec.clean_graphs],
+                       final_nodes=len(graph.nodes))
+            return real_rw(runner, graph, params)
+
+        return [mock.patch.object(m.TestGraph, "parse_object_trees", staticmethod(parse_object_trees)),
+                mock.patch.object(m.TestGraph, "flag_intersection", flag_intersection),
+                mock.patch.object(m.TestGraph, "flag_children", flag_children),
+                mock.patch.object(m.TestRunner, "run_workers", run_workers)]
 
     def _spy(self, name, fn):
         rec = self
